@@ -23,41 +23,41 @@ Proof. intros; unfold rl_fixed; lia. Qed.
 
 Lemma mcts_session_good0 : forall A term disc rl iters s0 h0 tr0 ops,
   0 < A -> trace_ok A tr0 -> Forall (fun p => trace_ok A (snd p)) ops ->
-  tree_all (good A) (mcts_session A term disc rl iters node0 ((MFresh s0 h0, tr0) :: ops)).
+  tree_all (good A) (mcts_session (fun _ => A) term disc rl iters node0 ((MFresh s0 h0, tr0) :: ops)).
 Proof.
   intros. apply mcts_session_good; auto. apply good_node0.
 Qed.
 
 Lemma mcts_counts_lemma : forall A term disc rl iters s0 h0 tr0 ops,
   0 < A -> trace_ok A tr0 -> Forall (fun p => trace_ok A (snd p)) ops ->
-  counts_ok (mcts_session A term disc rl iters node0 ((MFresh s0 h0, tr0) :: ops)).
+  counts_ok (mcts_session (fun _ => A) term disc rl iters node0 ((MFresh s0 h0, tr0) :: ops)).
 Proof. intros. eapply good_split. apply mcts_session_good0; auto. Qed.
 
 Lemma mcts_mean_lemma : forall A term disc rl iters s0 h0 tr0 ops,
   0 < A -> trace_ok A tr0 -> Forall (fun p => trace_ok A (snd p)) ops ->
-  mean_ok (mcts_session A term disc rl iters node0 ((MFresh s0 h0, tr0) :: ops)).
+  mean_ok (mcts_session (fun _ => A) term disc rl iters node0 ((MFresh s0 h0, tr0) :: ops)).
 Proof. intros. eapply good_split. apply mcts_session_good0; auto. Qed.
 
-Lemma mcts_return_lemma : forall A term disc rl fuel h d sn s tr sn' ret tr' st,
-  mcts_simulate A term disc rl (S fuel) h d sn s tr = (sn', ret, tr', st) ->
+Lemma mcts_return_lemma : forall gA term disc rl fuel h d sn s tr sn' ret tr' st,
+  mcts_simulate gA term disc rl (S fuel) h d sn s tr = (sn', ret, tr', st) ->
   st <= length tr -> ea (fst (next tr)) < length (acts sn) ->
   (ret == disc_sum disc (map er (firstn st tr)))%Q /\ tr' = skipn st tr /\
   rets (nth (ea (fst (next tr))) (acts sn') act0) = rets (nth (ea (fst (next tr))) (acts sn) act0) ++ [ret].
 Proof.
-  intros A term disc rl fuel h d sn s tr sn' ret tr' st H Hst Ha.
+  intros gA term disc rl fuel h d sn s tr sn' ret tr' st H Hst Ha.
   destruct (mcts_simulate_return _ _ _ _ _ _ _ _ _ _ _ _ _ _ H Hst) as [X Y].
   destruct (mcts_simulate_records _ _ _ _ _ _ _ _ _ _ _ _ _ _ H Ha) as [_ [Z _]].
   auto.
 Qed.
 
-Lemma mcts_depth_lemma : forall A term disc iters g op tr g' a tr' sts,
-  mcts_op A term disc rl_fixed iters g op tr = (g', a, tr', sts) ->
+Lemma mcts_depth_lemma : forall gA term disc iters g op tr g' a tr' sts,
+  mcts_op gA term disc rl_fixed iters g op tr = (g', a, tr', sts) ->
   Forall (fun st => st <= match op with MFresh _ h => h | MAdvance _ _ h => h end) sts.
 Proof. intros. eapply mcts_op_steps; eauto. apply rl_fixed_le. Qed.
 
 Lemma mcts_depth_refuted_lemma : exists A term disc iters s h tr g' a tr' sts,
   0 < A /\ trace_ok A tr /\
-  mcts_op A term disc rl_orig iters node0 (MFresh s h) tr = (g', a, tr', sts) /\
+  mcts_op (fun _ => A) term disc rl_orig iters node0 (MFresh s h) tr = (g', a, tr', sts) /\
   ~ Forall (fun st => st <= h) sts.
 Proof.
   exists 1, (fun _ => false), 1%Q, 1, 0, 2.
@@ -69,7 +69,7 @@ Qed.
 
 Lemma mcts_action_lemma : forall A term disc rl iters g op tr g' a tr' sts,
   0 < A -> trace_ok A tr -> counts_ok g /\ mean_ok g /\ shape_ok A g ->
-  mcts_op A term disc rl iters g op tr = (g', a, tr', sts) ->
+  mcts_op (fun _ => A) term disc rl iters g op tr = (g', a, tr', sts) ->
   a < A /\ length (acts g') = A.
 Proof.
   intros A term disc rl iters g op tr g' a tr' sts HA Htr Hg H.
@@ -80,10 +80,10 @@ Qed.
 Lemma mcts_promotion_lemma : forall A term disc rl iters g a s1 h tr,
   (forall c, find_kid s1 (kids (nth a (acts g) act0)) = Some c ->
      In (s1, c) (kids (nth a (acts g) act0)) /\
-     mcts_advance A term disc rl iters g a s1 h tr = mcts_runSimulation A term disc rl iters h (allocate A c) s1 tr /\
-     fst (fst (fst (mcts_advance A term disc rl 0 g a s1 h tr))) = allocate A c) /\
+     mcts_advance (fun _ => A) term disc rl iters g a s1 h tr = mcts_runSimulation (fun _ => A) term disc rl iters h (allocate A c) s1 tr /\
+     fst (fst (fst (mcts_advance (fun _ => A) term disc rl 0 g a s1 h tr))) = allocate A c) /\
   (find_kid s1 (kids (nth a (acts g) act0)) = None ->
-     mcts_advance A term disc rl iters g a s1 h tr = mcts_fresh A term disc rl iters s1 h tr).
+     mcts_advance (fun _ => A) term disc rl iters g a s1 h tr = mcts_fresh (fun _ => A) term disc rl iters s1 h tr).
 Proof.
   intros. split.
   - intros c E. split; [apply find_kid_In; exact E|]. unfold mcts_advance. rewrite E.
